@@ -47,19 +47,13 @@ def is_single_peaked_axis(instance, axis):
         peak_passed = False
         previous_position = None
         for pos in positions:
-            # If pos = 0, we are at the peak
-            if pos == 0:
-                peak_passed = True
-            else:
-                if previous_position is not None:
-                    if peak_passed:
-                        # If we passed the peak and the position is decreasing, there's a problem
-                        if pos < previous_position:
-                            return False
-                    else:
-                        # If we did not pass the peak and the position is increasing, there's a problem
-                        if pos > previous_position:
-                            return False
+            if previous_position is not None:
+                if pos > previous_position:
+                    # The position is increasing, we have passed the peak
+                    peak_passed = True
+                elif pos < previous_position and peak_passed:
+                    # If we passed the peak and the position is decreasing, there's a problem
+                    return False
             previous_position = pos
     return True
 
